@@ -75,7 +75,7 @@ def run(tier, v):
                          "failed_ops": [repr(o) for o in failed_ops][:4]},
                         replay_files=_replay_files(sc, x), replay_cmd=_replay_cmd(sc, x))
 
-    names = ["S1", "S2", "S3"] + (["S5", "S6", "S10", "S5c", "S5d"] if tier == "thorough" else ["S6", "S10", "S5c"])
+    names = ["S1", "S2", "S3"] + (["S5", "S6", "S10", "S5c", "S5d", "S11"] if tier == "thorough" else ["S6", "S10", "S5c", "S11"])
     bound = 3 if tier == "thorough" else 2
     for n in names:
         sc = scenarios.ALL[n]()
